@@ -11,6 +11,7 @@ inline bool always_derived(const std::string& key) {
         "Dot3.length", "IP.tot_len", "IP.head_len", "IP.checksum", "IP.advertised_size", "IPv6.payload_length",
         "TCP.data_offset", "TCP.checksum", "UDP.length", "UDP.checksum", "ICMP.checksum", "ICMP.length", "ICMPv6.checksum", "ICMPv6.length",
         "RadioTap.length", "EAPOL.length", "PPPoE.payload_length", "IPSecAH.length",
+        "RSNEAPOL.key_length", "RSNEAPOL.wpa_length", "RC4EAPOL.key_length",      // key-data length fields rewritten by write_body
         0};
     for (int i = 0; k[i]; ++i) if (key == k[i]) return true;
     // size queries are lengths
@@ -60,8 +61,18 @@ inline std::string compare_views(const PacketView& p, const PacketView& q, uint3
         if (a.cls != b.cls) return "roundtrip:layer-class-changed|layer " + std::to_string(i) + " " + a.cls + " -> " + b.cls;
         bool last_layer = i + 1 == p.layers.size();
         bool raw_follows = last_layer && !p.payload.empty();       // unrecognised, non-empty payload follows this layer
+        // RFC 4884: for error messages that may carry extensions the 'length' octet is derived; getters that alias the same header
+        // octets (the rest-of-header union) are views of that derived octet for these types
+        bool icmp_err = false, icmp6_err = false;
+        for (auto& e : a.entries) {
+            if (e.key == "ICMP.type" && (e.val == "3" || e.val == "11" || e.val == "12")) icmp_err = true;
+            if (e.key == "ICMPv6.type" && (e.val == "1" || e.val == "3")) icmp6_err = true;
+        }
         for (size_t j = 0; j < a.entries.size() && j < b.entries.size(); ++j) {
             const Entry &x = a.entries[j], &y = b.entries[j];
+            if (icmp_err && (x.key == "ICMP.gateway" || x.key == "ICMP.id")) continue;
+            if (icmp6_err && (x.key == "ICMPv6.identifier" || x.key == "ICMPv6.hop_limit" || x.key == "ICMPv6.router" || x.key == "ICMPv6.solicited" ||
+                              x.key == "ICMPv6.override" || x.key == "ICMPv6.maximum_response_code")) continue;
             if (x.key != y.key) return "harness:view-key-mismatch|" + x.key + " vs " + y.key;
             if (always_derived(x.key)) continue;
             if (protocol_tag(x.key) && !raw_follows) continue;
